@@ -125,6 +125,18 @@ fn battery() {
         let mut c = vec![2u8, 0, sv.len() as u8]; c.extend_from_slice(sv.as_bytes()); c.push(0); c.extend_from_slice(&7.0f64.to_be_bytes()); c.extend_from_slice(&b[3 + sv.len()..]);
         expect_layout(RtmpMessage::Amf0Command { command_name: sv.to_string(), transaction_id: 7.0, command_object: Amf0Value::Object(o), additional_arguments: vec![] }, 20, c);
     }
+    // BREADTH, not depth: many sibling EMPTY containers, then one more container, in a data and in a command body; whatever
+    // from_rtmp_message produces, to_rtmp_message gives back (each empty strict array is the five bytes 0A 00 00 00 00)
+    for n in [127usize, 128, 129, 200, 1000] {
+        let mut vals: Vec<Amf0Value> = (0..n).map(|i| if i % 3 == 2 { Amf0Value::Object(std::collections::HashMap::new()) } else { Amf0Value::StrictArray(vec![]) }).collect();
+        vals.push(Amf0Value::StrictArray(vec![Amf0Value::Null, Amf0Value::StrictArray(vec![])]));
+        for m in [RtmpMessage::Amf0Data { values: vals.clone() }, RtmpMessage::Amf0Command { command_name: "c".into(), transaction_id: 1.0, command_object: Amf0Value::Null, additional_arguments: vals.clone() }] {
+            let p = match enc(m.clone()) { Ok(p) => p, Err(e) => fail(format!("from_rtmp_message refused a body of {} empty containers followed by a container: {}", n, e)) };
+            if n == 127 && p.type_id == 18 && p.data[..5] != [0x0A, 0, 0, 0, 0] { fail(format!("an empty strict array is not encoded as 0A 00 00 00 00 but {:02x?}", &p.data[..5])); }
+            match dec(&p) { Ok(back) => if back != m { fail(format!("a body of {} empty containers followed by a container (type {}) does not decode to the message it was made from", n, p.type_id)) },
+                            Err(e) => fail(format!("to_rtmp_message failed on the body from_rtmp_message produced for {} empty containers followed by a container (type {}): {}", n, p.type_id, e)) }
+        }
+    }
     // termination on lying counts: a strict array announcing 2^32-1 elements with none present must return promptly (Ok or Err)
     {
         let (tx, rx) = std::sync::mpsc::channel();
